@@ -130,38 +130,50 @@ func runCurve(c *mon.Ctx, in *h2c.Inst) {
 		}
 		e.svdw = &oh2c.SvdW{C: e.E, Z: f.FromInts(vs...)}
 		e.Em = e.E
+		// the selection criteria of Z are constants-level facts: recorded as evidence, not as violations (their observable
+		// consequences - undefined map values, invalid points - are what the behavioural checks below catch)
 		err := e.svdw.CheckZ()
 		c.Class(N + "/constants/svdw-Z-criteria")
-		c.Check("constants", N+"/constants/svdw-Z-criteria", err == nil, func() string {
-			return fmt.Sprintf("Z = %s does not satisfy RFC 9380 6.6.1: %v", f.String(e.svdw.Z), err)
-		})
+		c.Eval("constants", 1)
+		if err != nil {
+			c.Note("%s: Z = %s does not satisfy RFC 9380 6.6.1: %v", N, f.String(e.svdw.Z), err)
+			c.Extra(N+".Z_criteria_violated", err.Error())
+		}
 	case "SSWU":
 		a, b, z := in.IsoCurve()
 		e.Em = &ocurve.Curve{F: f, A: a, B: b}
 		e.sswu = &oh2c.SSWU{C: e.Em, Z: z}
+		// the selection criteria of Z are constants-level facts: recorded as evidence (notes + extra), not as violations;
+		// their observable consequences (undefined map values -> invalid points) are caught by the behavioural checks
 		bad := e.sswu.CheckZ()
 		c.Class(N + "/constants/sswu-Z-criteria")
+		c.Eval("constants", 4)
+		var violated []int
 		for _, k := range []int{0, 1, 2, 4} {
-			msg, failed := bad[k]
-			c.Check("constants", fmt.Sprintf("%s/constants/sswu-Z-criterion-%d", N, k), !failed, func() string {
-				return fmt.Sprintf("RFC 9380 6.6.2 criterion %d on Z is violated: %s; A'=%s B'=%s Z=%s", k, msg, f.String(a), f.String(b), f.String(z))
-			})
+			if msg, failed := bad[k]; failed {
+				violated = append(violated, k)
+				c.Note("%s: RFC 9380 6.6.2 criterion %d on Z is violated: %s; A'=%s B'=%s Z=%s", N, k, msg, f.String(a), f.String(b), f.String(z))
+			}
 		}
 		if _, failed := bad[0]; failed {
+			c.Fail(N+"/constants/sswu-degenerate-curve", "A'*B' = 0: the simplified SWU map is not applicable (A'=%s B'=%s)", f.String(a), f.String(b))
 			return
 		}
 		cubic := []ofield.El{f.Sub(b, z), a, f.Zero(), f.One()}
-		irr := oh2c.CubicHasNoRoot(f, cubic)
 		c.Class(N + "/constants/sswu-Z-irreducible")
-		c.Check("constants", N+"/constants/sswu-Z-criterion-3", irr, func() string {
+		if !oh2c.CubicHasNoRoot(f, cubic) {
+			violated = append(violated, 3)
 			rs := oh2c.RootsInF(f, cubic, gen.New(1, "c13/cubic"))
 			txt := ""
 			for _, r := range rs {
 				v := f.Sub(f.Add(f.Add(f.Mul(f.Sqr(r), r), f.Mul(a, r)), b), z)
 				txt += fmt.Sprintf(" x=%s (g'(x)-Z = %s)", f.String(r), f.String(v))
 			}
-			return fmt.Sprintf("RFC 9380 6.6.2 criterion 3 is violated: g'(x) - Z has a root in F:%s; A'=%s B'=%s Z=%s", txt, f.String(a), f.String(b), f.String(z))
-		})
+			c.Note("%s: RFC 9380 6.6.2 criterion 3 on Z is violated: g'(x) - Z has a root in F:%s; Z=%s", N, txt, f.String(z))
+		}
+		if len(violated) > 0 {
+			c.Extra(N+".Z_criteria_violated", violated)
+		}
 		if rs, ok := rfcSuite[N]; ok {
 			wa, wb, wz := elFromHex(f, rs[0]), elFromHex(f, rs[1]), elFromHex(f, rs[2])
 			c.Class(N + "/constants/rfc-suite")
@@ -568,7 +580,7 @@ func (e *cenv) checkMap(u ofield.El, cls string) (gpt ocurve.Pt, gok bool) {
 	})
 	sok := true
 	if on && !f.IsZero(gp.Y) {
-		sok = c.Check("MapToCurve", KM+"/sgn0-mismatch/"+fmt.Sprintf("sgn0(u)=%d", oh2c.Sgn0(u)), oh2c.Sgn0(gp.Y) == oh2c.Sgn0(u), func() string {
+		sok = c.Check("MapToCurve", KM+"/sgn0-mismatch/"+fmt.Sprintf("sgn0(u)=%d/", oh2c.Sgn0(u))+cls, oh2c.Sgn0(gp.Y) == oh2c.Sgn0(u), func() string {
 			return desc() + fmt.Sprintf(": sgn0(y) = %d but sgn0(u) = %d (y = %s)", oh2c.Sgn0(gp.Y), oh2c.Sgn0(u), f.String(gp.Y))
 		})
 	}
@@ -577,11 +589,11 @@ func (e *cenv) checkMap(u ofield.El, cls string) (gpt ocurve.Pt, gok bool) {
 			c.Class(cell + "/g(x1)=0:straight-line-value")
 			c.Eval("MapToCurve", 1)
 		} else {
-			xok := c.Check("MapToCurve", KM+"/rfc-mismatch/x/"+bcls, !gp.Inf && f.Eq(gp.X, want.X), func() string {
+			xok := c.Check("MapToCurve", KM+"/rfc-mismatch/x/"+bcls+"/"+cls, !gp.Inf && f.Eq(gp.X, want.X), func() string {
 				return desc() + fmt.Sprintf(": x = %s, the RFC 9380 map gives x = %s", f.String(got.X), f.String(want.X))
 			})
 			if xok && on && sok {
-				c.Check("MapToCurve", KM+"/rfc-mismatch/y", f.Eq(gp.Y, want.Y), func() string {
+				c.Check("MapToCurve", KM+"/rfc-mismatch/y/"+bcls+"/"+cls, f.Eq(gp.Y, want.Y), func() string {
 					return desc() + fmt.Sprintf(": y = %s, the RFC 9380 map gives y = %s", f.String(got.Y), f.String(want.Y))
 				})
 			}
@@ -591,7 +603,7 @@ func (e *cenv) checkMap(u ofield.El, cls string) (gpt ocurve.Pt, gok bool) {
 		e.mu.Lock()
 		k := f.String(gp.X)
 		if prev, dup := e.seenX[k]; dup && !f.Eq(prev, u) && !f.Eq(prev, f.Neg(u)) {
-			c.Fail(KM+"/collision/independent-u", "%s and u=%s (not +-u) map to the same abscissa %s: for independent random u this has probability ~ 8/q", desc(), f.String(prev), k)
+			c.Fail(KM+"/collision/independent-u/"+bcls, "%s and u=%s (not +-u) map to the same abscissa %s: for independent random u this has probability ~ 8/q", desc(), f.String(prev), k)
 		}
 		e.seenX[k] = u
 		e.mu.Unlock()
@@ -632,7 +644,7 @@ func (e *cenv) checkMap(u ofield.El, cls string) (gpt ocurve.Pt, gok bool) {
 	switch {
 	case cofactorOne[e.N]:
 		if !undefined {
-			c.Check("MapToG", KG+"/rfc-mismatch/"+bcls, e.E.Eq(P, want), func() string {
+			c.Check("MapToG", KG+"/rfc-mismatch/"+bcls+"/"+cls, e.E.Eq(P, want), func() string {
 				return descG() + " = " + e.E.String(P) + ", cofactor 1: the RFC 9380 map gives " + e.E.String(want)
 			})
 		}
@@ -661,7 +673,7 @@ func (e *cenv) checkMap(u ofield.El, cls string) (gpt ocurve.Pt, gok bool) {
 			}
 			var cc h2c.Pt
 			if !c.Guard(KG+"/panic/ClearCofactor", descG, func() { cc = in.ClearCofactor(lq) }) {
-				c.Check("MapToG", KG+"/composition-mismatch/"+bcls, e.E.Eq(toPt(f, cc), P), func() string {
+				c.Check("MapToG", KG+"/composition-mismatch/"+bcls+"/"+cls, e.E.Eq(toPt(f, cc), P), func() string {
 					return descG() + " = " + e.E.String(P) + " but ClearCofactor(isogeny(map(u))) with the mapped point " + e.E.String(Qm) + " is " + e.E.String(toPt(f, cc))
 				})
 			}
@@ -760,20 +772,20 @@ func (e *cenv) hashChecks() {
 			if !c.Check(op, K+"/spurious-error/"+cls, err == nil, func() string { return desc() + fmt.Sprintf(": error %v", err) }) {
 				continue
 			}
-			c.Check(op, K+"/input-modified", string(msg) == string(m0) && string(dst) == string(d0), func() string { return desc() + ": msg or dst was written" })
-			c.Check(op, K+"/nondeterministic", f.Eq(got.X, got2.X) && f.Eq(got.Y, got2.Y), func() string { return desc() + ": two calls, two results" })
+			c.Check(op, K+"/input-modified/"+cls, string(msg) == string(m0) && string(dst) == string(d0), func() string { return desc() + ": msg or dst was written" })
+			c.Check(op, K+"/nondeterministic/"+cls, f.Eq(got.X, got2.X) && f.Eq(got.Y, got2.Y), func() string { return desc() + ": two calls, two results" })
 			P := toPt(f, got)
 			{
 				// distinct (msg, dst) must not collide (probability ~ 1/r each): spec-independent degeneracy detector
 				k := op + f.String(got.X) + f.String(got.Y)
 				if prev, dup := outSeen[k]; dup {
-					c.Fail(K+"/collision", "%s and %s return the same point %s", desc(), prev, e.E.String(P))
+					c.Fail(K+"/collision/grid", "%s and %s return the same point %s", desc(), prev, e.E.String(P))
 				}
 				outSeen[k] = desc()
 				c.Eval(op, 1)
 			}
-			if c.Check(op, K+"/off-curve", e.E.IsOnCurve(P), func() string { return desc() + " = " + e.E.String(P) + " is not on the curve" }) {
-				c.Check(op, K+"/not-in-subgroup", e.E.Mul(P, e.g.R).Inf, func() string { return desc() + " = " + e.E.String(P) + ": [r]P != O" })
+			if c.Check(op, K+"/off-curve/"+cls, e.E.IsOnCurve(P), func() string { return desc() + " = " + e.E.String(P) + " is not on the curve" }) {
+				c.Check(op, K+"/not-in-subgroup/"+cls, e.E.Mul(P, e.g.R).Inf, func() string { return desc() + " = " + e.E.String(P) + ": [r]P != O" })
 			}
 			// RFC 9380 section 3: encode_to_curve = clear_cofactor(map(u)), hash_to_curve = clear_cofactor(map(u0) + map(u1)),
 			// u = hash_to_field(msg, count) over the coordinate field; clear_cofactor is a homomorphism, so both are sums
@@ -796,18 +808,18 @@ func (e *cenv) hashChecks() {
 				continue
 			}
 			if e.E.Eq(P, want) {
-				c.Check(op, K+"/rfc-mismatch", true, nil)
+				c.Check(op, K+"/rfc-mismatch/"+cls, true, nil)
 				continue
 			}
 			if e.heavy {
 				if w2, ok2 := compose(e.libConventionU(msg, dst, count)); ok2 && e.E.Eq(P, w2) {
-					c.Check(op, K+"/rfc-mismatch/hash_to_field-m=4", false, func() string {
+					c.Check(op, K+"/rfc-mismatch-hash_to_field-m=4/"+cls, false, func() string {
 						return desc() + " = " + e.E.String(P) + ": RFC 9380 5.2 draws the 4 coefficients of each u in F_p^4 (len_in_bytes = count*4*L); the library draws 2 and leaves coefficients 1 and 3 at zero (u = (e0,0,e1,0)); with the RFC's u = " + elsString(f, us) + " the result would be " + e.E.String(want)
 					})
 					continue
 				}
 			}
-			c.Check(op, K+"/rfc-mismatch", false, func() string {
+			c.Check(op, K+"/rfc-mismatch/"+cls, false, func() string {
 				return desc() + " = " + e.E.String(P) + ", composition of hash_to_field and MapToG gives " + e.E.String(want) + " (u = " + elsString(f, us) + ")"
 			})
 		}
@@ -829,7 +841,7 @@ func (e *cenv) hashChecks() {
 			}
 			k := op + f.String(got.X) + f.String(got.Y)
 			if prev, dup := outSeen[k]; dup {
-				c.Fail(K+"/collision", "%s and %s return the same point %s", desc(), prev, e.E.String(toPt(f, got)))
+				c.Fail(K+"/collision/sweep", "%s and %s return the same point %s", desc(), prev, e.E.String(toPt(f, got)))
 			}
 			outSeen[k] = desc()
 			c.Eval(op, 1)
